@@ -161,10 +161,10 @@ def cut(B, exprs, cut_arrays, prefix='F'):
 
 # ----------------------------------------------------------------------------------------
 # 2D builder
-def build2d(B, cfg):
+def build2d(B, cfg, source=None):
     fd = B.fd
     nx, ny = cfg['nx'], cfg['ny']
-    model = fd.euler.euler2d(gamma=B.const(cfg.get('gamma', '2')))
+    model = fd.euler.euler2d(gamma=B.const(cfg.get('gamma', '2')), **({'source': source} if source is not None else {}))
     mesh = fd.mesh2d.mesh2d(nx, ny, B.pos('lx', 0.5, 3.0), B.pos('ly', 0.5, 3.0))
     num = fd.xnum.extrapol2d1() if cfg.get('num', 'extrapol2d1') == 'extrapol2d1' else \
         fd.xnum.extrapol2dk(B.var('kappa', -1.0, 1.0) if cfg.get('kappa', 'sym') == 'sym' else B.const(cfg['kappa']))
